@@ -198,6 +198,35 @@ func Load(o LoadOpts) (*Program, error) {
 	for _, f := range p.API {
 		walk(f)
 	}
+	// Methods of repository types that are converted to an interface in reachable code can be
+	// called back by library code whose bodies are not loaded (sort.Stable -> Swap, errors.Is -> Is,
+	// json.Marshal -> MarshalJSON): treat their whole method set as reachable.
+	for changed := true; changed; {
+		changed = false
+		var fns []*ssa.Function
+		for f := range p.Reach {
+			fns = append(fns, f)
+		}
+		for _, f := range fns {
+			for _, b := range f.Blocks {
+				for _, in := range b.Instrs {
+					mi, ok := in.(*ssa.MakeInterface)
+					if !ok {
+						continue
+					}
+					t := mi.X.Type()
+					ms := prog.MethodSets.MethodSet(t)
+					for i := 0; i < ms.Len(); i++ {
+						m := prog.MethodValue(ms.At(i))
+						if m != nil && p.IsRepo(m) && !p.Reach[m] {
+							walk(m)
+							changed = true
+						}
+					}
+				}
+			}
+		}
+	}
 	return p, nil
 }
 
